@@ -18,7 +18,7 @@ ASSUMPTIONS = ["for Parameter-valued arguments only unambiguous cases are judged
                "not judged for acceptance (it may hold an integral value) but a rejection must still be a JaqalError"]
 TIERS = {"quick": {"shards": 8, "budget_s": 80}, "thorough": {"shards": 16, "budget_s": 240}}
 REQUIRE = {"calls-on-a-definition-used-before": 20000, "definitions-used-before-variants-were-derived": 20, "calls-judged": 20000, "accepted": 2000, "rejected": 5000, "keyword-vs-positional": 5000, "idle-gates-checked": 20,
-           "stretched-gates-checked": 15, "stretched_gates-calls-with-update": 6, "stretched-idle-gates-with-custom-names": 20, "stretch-factors-sampled": 100}
+           "stretched-gates-checked": 15, "stretched-gates-checked:gate-model-A": 15, "stretched-gates-checked:gate-model-B": 15, "stretched_gates-calls-with-update": 6, "stretched-idle-gates-with-custom-names": 20, "stretch-factors-sampled": 100}
 
 KINDS = ["QUBIT", "REGISTER", "INT", "FLOAT", "NONE"]
 VALUE_CLASSES = ["qubit", "register", "int", "intfloat", "float", "constI", "constFint", "constF", "pQ", "pR", "pI", "pF", "pN",
@@ -267,14 +267,15 @@ def idle_effect(out, rng):
 UPDATE_CALLS = [0]
 
 
-def judge_stretched(suffix, with_idle, order_seed, rng):
+def judge_stretched(suffix, with_idle, order_seed, rng, variant="A"):
     import random
     from jaqalpaq.core.stretch import stretched_gates
     from jaqalpaq.core import ParamType
     from jaqalpaq.core.gatedef import IdleGateDefinition
 
     fails = []
-    base = gateset.make(idle=with_idle, logged=False)
+    # variant "B": another gate model of the same machine -- the same names and signatures, other matrices -- in one process
+    base = gateset.make(idle=with_idle, logged=False, variant=variant)
     base = {k: v for k, v in base.items() if k not in ("prepare_all", "measure_all")}
     custom = {}
     if with_idle:
@@ -453,13 +454,15 @@ def shard(ctx):
             rec.count("idle-effect-programs", m)
             for clause, detail in f2:
                 rec.violation(sig("C18", clause), detail, {"kind": "idle-effect"})
-        for suffix in ("_stretched", "_s", ".x"):
+        for si, suffix in enumerate(("_stretched", "_s", ".x")):
             for with_idle in (False, True):
-                fails, n, nf = judge_stretched(suffix, with_idle, seed, rng)
+                variant = "AB"[(k + si) % 2]
+                fails, n, nf = judge_stretched(suffix, with_idle, seed, rng, variant)
                 rec.count("stretched-gates-checked", n)
+                rec.count("stretched-gates-checked:gate-model-" + variant, n)
                 rec.count("stretch-factors-sampled", nf)
                 for clause, detail in fails:
-                    rec.violation(sig("C18", clause), detail, {"kind": "stretched", "suffix": suffix, "with_idle": with_idle, "order_seed": seed})
+                    rec.violation(sig("C18", clause), detail, {"kind": "stretched", "suffix": suffix, "with_idle": with_idle, "order_seed": seed, "variant": variant})
     rec.counters["definitions-used-before-variants-were-derived"] = USED_FIRST[0]
     rec.counters["stretched_gates-calls-with-update"] = UPDATE_CALLS[0]
     rec.counters["stretched-idle-gates-with-custom-names"] = CUSTOM_IDLES[0]
@@ -489,7 +492,7 @@ def replay(ctx, case):
     elif k == "idle":
         fails = judge_idle(case["order_seed"])[0]
     elif k == "stretched":
-        fails = judge_stretched(case["suffix"], case["with_idle"], case["order_seed"], ctx.rng)[0]
+        fails = judge_stretched(case["suffix"], case["with_idle"], case["order_seed"], ctx.rng, case.get("variant", "A"))[0]
     else:
         fails = []
     for clause, detail in fails:
